@@ -37,6 +37,7 @@
 ''' This module contains the ScopingNode implementation.'''
 
 from psyclone.psyir.nodes.node import Node
+from psyclone.psyir.nodes.literal import Literal
 from psyclone.psyir.nodes.reference import Reference
 from psyclone.psyir.symbols import SymbolTable
 
@@ -111,7 +112,15 @@ class ScopingNode(Node):
         # We have to import Loop here to avoid a circular dependency.
         # pylint: disable=import-outside-toplevel
         from psyclone.psyir.nodes.loop import Loop
-        for node in self.walk((Reference, Loop)):
+        # The symbols used by the datatypes of Literals (kind parameters) and
+        # by the symbols declared in inner scopes must be updated too.
+        for node in self.walk((Reference, Loop, Literal, ScopingNode)):
+            if isinstance(node, Literal):
+                node._datatype = self.symbol_table._localise(
+                    node.datatype, other.symbol_table)
+            if isinstance(node, ScopingNode) and node is not self:
+                self.symbol_table._localise_symbols(
+                    node.symbol_table, other.symbol_table)
             if isinstance(node, Reference):
                 if node.symbol in other.symbol_table.symbols:
                     node.symbol = self.symbol_table.lookup(node.symbol.name)
